@@ -53,6 +53,7 @@ def run_shard(pid, tier, seed, k, n, out, budget):
     chk = load_check(pid)
     ctx = core.Ctx(pid, tier, seed)
     cov = core.FunctionCoverage()
+    core.COVERAGE = cov
     cov.start()
     sidecar = out + ".current"
     t0 = time.time()
@@ -92,6 +93,8 @@ def replay(pid, path):
     with open(path) as f:
         w = json.load(f)
     ctx = core.Ctx(pid, w.get("tier", "quick"), w.get("seed", 0))
+    if hasattr(chk, "prepare"):
+        chk.prepare(w.get("tier", "quick"), w.get("seed", 0))
     ctx.run_case(chk.KINDS, w["kind"], w["params"])
     if ctx.counters.get("harness_errors"):
         print("INCONCLUSIVE: harness error during replay", ctx.samples.get("harness_error"))
@@ -140,6 +143,8 @@ def main():
     work = os.path.join(HERE, ".work", pid)
     os.makedirs(work, exist_ok=True)
     t0 = time.time()
+    if hasattr(chk, "prepare"):
+        chk.prepare(a.tier, seed)
     procs = []
     for k in range(nshards):
         out = os.path.join(work, f"{a.tier}.shard{k}.json")
